@@ -27,6 +27,7 @@ class World:
         self.globals = {}
         self.ref_attrs = {}
         self.enum_orders = {}
+        self.enum_values = {}
         self.lib = Lib(self)
         self.float_div_raises = True
         self.exc_parents = {}
@@ -47,6 +48,12 @@ class World:
         sort, consts = th.enum_sort(name, members)
         ns = SNamespace(name, {m: SV(T('Enum', name), c) for m, c in consts.items()})
         self.globals[name] = ns
+        vals = extract.enum_int_values(relpath, clsname or name)
+        if vals is not None:
+            # member.value for integer-valued enumerations, read from the source
+            fv = th.func('value_' + name, sort, z3.IntSort())
+            self.enum_values[name] = fv
+            self.enum_orders['value:' + name] = (fv, [fv(consts[m]) == v for m, v in vals.items()])
         if ordered:
             f = th.func('ord_' + name, sort, z3.IntSort())
             self.enum_orders[name] = (f, [f(consts[m]) == i for i, m in enumerate(members)])
@@ -338,7 +345,10 @@ def verify_function(world, c, setup=None, body_of=None, hooks=None, extra_check=
             if extra_check is not None:
                 extra_check(I, scope, outcome)
             return
-        scope.set('result', outcome[1])
+        # the returned value is `result` in specifications -- `returned` when a parameter of the function is itself called result
+        scope.set('returned', outcome[1])
+        if 'result' not in c.params:
+            scope.set('result', outcome[1])
         for label, expr in c.lemmas:
             try:
                 t = I.spec(expr, scope)
